@@ -61,6 +61,24 @@ def flatten(s, out):
     return out
 
 
+def with_wires(s, wires, mk, pos=None):
+    """the same structure with the leaves whose flatten() position is in `wires` replaced by secret wires (mk(value))"""
+    pos = pos if pos is not None else [0]
+    if isinstance(s, Tag):
+        pos[0] += 1
+        return s
+    if isinstance(s, (list, tuple)):
+        items = [with_wires(x, wires, mk, pos) for x in s]
+        if isinstance(s, list):
+            return items
+        return type(s)(*items) if hasattr(s, "_fields") else tuple(items)
+    if isinstance(s, dict):
+        return {k: with_wires(v, wires, mk, pos) for k, v in s.items()}
+    i = pos[0]
+    pos[0] += 1
+    return mk(s) if i in wires else s
+
+
 def revalue(s, rnd):
     """same structure and leaf types, other values (floats switch between whole and fractional)"""
     if isinstance(s, list):
@@ -267,11 +285,21 @@ def worker(job):
             except TypeError:
                 R.count("recipe_not_applicable_on_plain_values")
                 continue
-            specs.append((args, body))
+            # some integer arguments are handed in as wires the caller already holds (next to plain numbers): they pass through
+            # as they are, every plain number still becomes a public input
+            wires = set()
+            call_args = args
+            if rnd.random() < 0.3:
+                wires = {i for i, x in enumerate(leaves) if type(x) is int and abs(x) < (1 << 60) and rnd.random() < 0.5}
+                if wires:
+                    conts.add("wire-arguments")
+                    R.count("calls_with_wire_arguments")
+                    call_args = tuple(with_wires(list(args), wires, prt.PrivVal))
+            specs.append((args, body, wires))
             npub0 = sum(1 for e in recorder.events if e[0] == "pub")
             nev0 = len(recorder.events)
             try:
-                got = prt.snark(body)(*args)
+                got = prt.snark(body)(*call_args)
             except Exception as e:  # noqa
                 R.count("call_raised:" + type(e).__name__)
                 desc.append(dict(args=repr(args), recipe=recipe, raised=repr(e)[:100]))
@@ -285,7 +313,9 @@ def worker(job):
             pubs = [(e[1], e[2]) for e in recorder.events[nev0:] if e[0] == "pub"]
             # expected: numeric argument leaves in order, then secret result leaves in order
             exp_in = []
-            for x in leaves:
+            for li, x in enumerate(leaves):
+                if li in wires:
+                    continue
                 if isinstance(x, bool):
                     exp_in.append(int(x))
                 elif isinstance(x, int):
@@ -341,8 +371,8 @@ def worker(job):
             N(bitlength=16, resolution=res_bits, modulus=p)
             gbak = prt.add_guard(bo.PrivValBool(1 - guard_v))
             try:
-                for args0, body0 in specs:
-                    prt.snark(body0)(*args0)
+                for args0, body0, wires0 in specs:
+                    prt.snark(body0)(*(tuple(with_wires(list(args0), wires0, prt.PrivVal)) if wires0 else args0))
                 R.count("guard_value_trace_pairs")
                 if r1cs.canon_trace(recorder.snapshot()) != tr1 and "after-raising-call" not in conts:
                     R.violation("trace-depends-on-guard-value", "the same wrapped calls emit a different constraint system under a true and under a false guard", calls=desc)
@@ -357,8 +387,9 @@ def worker(job):
             tr1 = _ev.canon_trace(snap)
             N(bitlength=16, resolution=res_bits, modulus=p)
             try:
-                for args0, body0 in specs:
-                    prt.snark(body0)(*revalue(args0, rnd))
+                for args0, body0, wires0 in specs:
+                    other = revalue(args0, rnd)
+                    prt.snark(body0)(*(tuple(with_wires(list(other), wires0, prt.PrivVal)) if wires0 else other))
                 tr2 = _ev.canon_trace(recorder.snapshot())
                 R.count("value_independence_pairs")
                 if tr1 != tr2 and "after-raising-call" not in conts:
